@@ -181,7 +181,7 @@ def newaxis_squeeze(ctx, shape):
     return ctx.done(ctx.AND(*oks), obs[:3])
 
 
-def broadcast(ctx, shape, adims, tdims, tsizes, via='axes', tdiff=False):
+def broadcast(ctx, shape, adims, tdims, tsizes, via='axes', tdiff=False, tnone=False):
     """a (dims adims) broadcast onto a target axis list tdims (superset, any order)"""
     a, ref, attrs = _build(ctx, shape, dims=adims)
     tlabels = []
@@ -191,6 +191,8 @@ def broadcast(ctx, shape, adims, tdims, tsizes, via='axes', tdiff=False):
         else:
             tlabels.append(ctx.labels(LK[DIMS.index(d)], n, 't%s_' % d))
     taxes = [ctx.da.Axis(ctx.nparray(l, kind=LK[DIMS.index(d)]), d) for d, l in zip(tdims, tlabels)]
+    if tnone:     # the target's length-1 axes are bare ones (label None, as newaxis makes them): the array's own label stays
+        taxes = [ctx.da.Axis([None], d) if (n == 1 and d in adims) else ax for d, n, ax in zip(tdims, tsizes, taxes)]
     if via == 'axes':
         target = taxes
     elif via == 'dimarray':
@@ -206,6 +208,9 @@ def broadcast(ctx, shape, adims, tdims, tsizes, via='axes', tdiff=False):
     for p in itertools.product(*[range(n) for n in tsizes]):
         src = []
         for d, n in zip(adims, shape):
+            if d not in tdims:      # a length-1 dimension the target does not have is dropped
+                src.append(0)
+                continue
             x = p[tdims.index(d)]
             src.append(x if n == tsizes[tdims.index(d)] else 0)
         cells.append(ref.at(src))
@@ -295,10 +300,15 @@ def templates():
         ([1, 3], ['x', 'y'], ['x', 'y'], [2, 3]), ([1, 3], ['x', 'y'], ['z', 'x', 'y'], [2, 2, 3]), ([3, 1], ['y', 'x'], ['x', 'y'], [2, 3]),
         ([], [], ['x', 'y'], [2, 2]), ([2], ['z'], ['w', 'z', 'x', 'y'], [2, 2, 1, 2]), ([2, 1, 2], ['x', 'y', 'z'], ['z', 'y', 'x'], [2, 3, 2]),
         ([2, 3], ['x', 'y'], ['x', 'y'], [2, 3]),
+        # length-1 dimensions absent from the target are dropped, the kept ones (length 1 too) keep their labels
+        ([1, 1, 3], ['x', 'y', 'z'], ['z', 'x'], [3, 1]), ([1, 2], ['x', 'y'], ['y'], [2]), ([1, 1], ['x', 'y'], ['y'], [1]),
+        ([1, 2, 1], ['x', 'y', 'z'], ['z', 'w', 'y'], [1, 2, 2]),
     ]
     for k, (sh, ad, td, tsz) in enumerate(cases):
         for via in ('axes', 'dimarray', 'odict'):
             add('broadcast-%d-%s-onto-%s-%s' % (k, ''.join(ad) or '0', ''.join(td), via), 'broadcast', cost=0.5, shape=sh, adims=ad, tdims=td, tsizes=tsz, via=via)
+        if 1 in tsz and any(d in ad for d, n in zip(td, tsz) if n == 1):
+            add('broadcast-%d-%s-onto-%s-bare' % (k, ''.join(ad) or '0', ''.join(td)), 'broadcast', cost=0.5, shape=sh, adims=ad, tdims=td, tsizes=tsz, tnone=True)
     bc = [
         [[['x'], [2]], [['y'], [3]]], [[['x', 'y'], [2, 3]], [['y'], [3]]], [[['x', 'y'], [2, 2]], [['y', 'x'], [2, 2]]],
         [[['x'], [2]], [['y', 'x'], [2, 2]], [['z'], [2]]], [[['x', 'y'], [1, 3]], [['x', 'y'], [2, 3]]], [[[], []], [['x'], [2]]],
